@@ -30,7 +30,7 @@ func init() {
 			return 160
 		},
 		Run:     runC02,
-		Require: []string{"unpinned_seed_programs", "emptied_and_refilled", "faulty_closes", "clean_restarts", "idle_cycles", "fs_switches", "restarts_with_chain", "restarts_with_free_list", "restarts_mid_level", "compactions_effective"},
+		Require: []string{"seed_zero_programs", "unpinned_seed_programs", "emptied_and_refilled", "faulty_closes", "clean_restarts", "idle_cycles", "fs_switches", "restarts_with_chain", "restarts_with_free_list", "restarts_mid_level", "compactions_effective"},
 	})
 }
 
@@ -44,7 +44,13 @@ func runC02(c *core.Ctx) {
 		core.UnpinSeed()
 		c.Stat("unpinned_seed_programs", 1)
 	} else {
-		core.PinSeed(seed)
+		if c.Case%16 == 8 {
+			seed = 0 // a legal seed like any other; only the first draw is pinned to it
+			c.Stat("seed_zero_programs", 1)
+			core.PinSeedOnce(seed)
+		} else {
+			core.PinSeed(seed)
+		}
 	}
 	cfg := core.RandConfig(rng)
 	var fsk core.FSKind
@@ -107,6 +113,7 @@ func runC02(c *core.Ctx) {
 	withRestarts = append(withRestarts, core.Op{K: core.OpReopen})
 	ops = withRestarts
 	x.AltFS = true
+	x.AltSpelling = c.Case%8 < 2 // Mem and CrashFS cases
 	x.IdleCycles = rng.Intn(2) == 0
 	c.Stat("fs_"+string(fsk), 1)
 	fail := func(i int, sig, detail string) {
